@@ -310,7 +310,7 @@ func runWorkerOnce(self string, u Unit, limit time.Duration) (r Result, hung, cr
 	if payload == nil || json.Unmarshal(bytes.TrimSpace(payload), &r) != nil {
 		tail := errb.String()
 		if len(tail) > 3000 {
-			tail = tail[len(tail)-3000:]
+			tail = tail[:1500] + " ... " + tail[len(tail)-1500:] // a Go fatal error names its cause in the first lines
 		}
 		r = Result{Err: fmt.Sprintf("worker for unit %s/%s failed: %v\nstderr: %s", u.Check, u.Kind, err, tail)}
 		return r, false, true
